@@ -17,6 +17,62 @@ type Roles struct {
 	BoundedDraw []*ssa.Function                     // module functions calling a raw-word function
 	DrawSites   []*ssa.Call                         // calls of bounded-draw functions (outside bounded-draw functions)
 	RawCalls    map[*ssa.Function][]*ssa.Call       // calls of raw-word functions, per caller
+	// PickHelpers: module functions of the shape `func(list []T) T { return list[draw(uint32(len(list)))] }`
+	// (a uniform pick; bound/collection agreement holds inside by construction and is checked once)
+	PickHelpers map[*ssa.Function]bool
+	// ChoiceSites: draw sites outside pick helpers, plus calls of pick helpers
+	ChoiceSites []*ssa.Call
+}
+
+// IsPickCall reports whether v is a call of a pick helper and returns the collection argument.
+func (r *Roles) IsPickCall(v ssa.Value) (*ssa.Call, ssa.Value, bool) {
+	c, ok := v.(*ssa.Call)
+	if !ok {
+		return nil, nil, false
+	}
+	f := core.StaticCallee(c)
+	if f == nil || !r.PickHelpers[f] || len(c.Call.Args) != 1 {
+		return nil, nil, false
+	}
+	return c, c.Call.Args[0], true
+}
+
+// isPickHelper recognises `return list[draw(conv(len(list)))]`.
+func isPickHelper(fn *ssa.Function, isDraw func(*ssa.Call) bool) bool {
+	if fn.Blocks == nil || len(fn.Params) != 1 || fn.Signature.Results().Len() != 1 || fn.Parent() != nil {
+		return false
+	}
+	if _, ok := fn.Params[0].Type().Underlying().(*types.Slice); !ok {
+		return false
+	}
+	rets := core.Returns(fn)
+	if len(rets) != 1 || len(fn.Blocks) != 1 {
+		return false
+	}
+	ld, ok := rets[0].Results[0].(*ssa.UnOp)
+	if !ok {
+		return false
+	}
+	ia, ok := ld.X.(*ssa.IndexAddr)
+	if !ok || ia.X != ssa.Value(fn.Params[0]) {
+		return false
+	}
+	d, ok := core.Strip(ia.Index).(*ssa.Call)
+	if !ok || !isDraw(d) || len(d.Call.Args) != 1 {
+		return false
+	}
+	x, isLen := core.LenOf(core.Strip(d.Call.Args[0]))
+	if !isLen || x != ssa.Value(fn.Params[0]) {
+		return false
+	}
+	// nothing else happens: the only calls are len and the draw
+	for _, c := range core.Calls(fn) {
+		if c == ssa.CallInstruction(d) || core.IsBuiltin(c, "len") {
+			continue
+		}
+		return false
+	}
+	return true
 }
 
 var (
@@ -129,6 +185,34 @@ func GetRoles(p *core.Program) *Roles {
 				if isBD[callee] {
 					r.DrawSites = append(r.DrawSites, cc)
 					break
+				}
+			}
+		}
+	}
+	// pick helpers and choice sites
+	r.PickHelpers = map[*ssa.Function]bool{}
+	isDrawCall := func(c *ssa.Call) bool {
+		f := core.StaticCallee(c)
+		return f != nil && isBD[f]
+	}
+	for _, fn := range p.ModuleFuncs() {
+		if isPickHelper(fn, isDrawCall) {
+			r.PickHelpers[fn] = true
+		}
+	}
+	for _, s := range r.DrawSites {
+		if !r.PickHelpers[s.Parent()] {
+			r.ChoiceSites = append(r.ChoiceSites, s)
+		}
+	}
+	for _, fn := range p.ModuleFuncs() {
+		if r.PickHelpers[fn] {
+			continue
+		}
+		for _, c := range core.Calls(fn) {
+			if cv, ok := c.(*ssa.Call); ok {
+				if f := core.StaticCallee(cv); f != nil && r.PickHelpers[f] {
+					r.ChoiceSites = append(r.ChoiceSites, cv)
 				}
 			}
 		}
